@@ -704,19 +704,6 @@ theorem onColumnT_quiet (cbs : List CallbackT) (hq : Quiet cbs) (d : Bytes) : (o
 
 /-! ## the poison callback and the proxy's callback stack -/
 
-/-- a key view without private and without symmetric keys decrypts nothing -/
-theorem process_no_keys (c : CryptoOps) (kv : KeyView) (hp : kv.privs = none) (hs : kv.syms = none)
-    (d m : Bytes) : process c kv d ≠ .ok m := by
-  intro h
-  obtain ⟨k, i, _, hk⟩ := process_ok h
-  cases k with
-  | block =>
-    obtain ⟨_, _, _, ks, hks, _⟩ := decryptKind_block_ok hk
-    rw [hs] at hks; cases hks
-  | struct =>
-    obtain ⟨ps, hps, _⟩ := decryptKind_struct_ok hk
-    rw [hp] at hps; cases hps
-
 theorem isPoison_eq_true {c : CryptoOps} {pk : KeyView} {x : Bytes} :
     isPoison c pk x = true ↔ ∃ m, process c pk x = .ok m := by
   unfold isPoison
